@@ -36,6 +36,12 @@ CHECKS = {
     'C09': dict(technique=E1 + '; dict + list model; differential replay of listings and rebuild()',
         text='All register/unregister/subscribe/unsubscribe/rebuild histories up to the depth over 7-9 keys; listings compared exactly in every state, lookups against the brute-force winner and against a re-populated registry.',
         note='Depth-bounded; values a, a\' (equal, not identical), b.', ref='3/C09'),
+    'C10': dict(technique='lock-step differential model checking: the same exhaustively enumerated programs (history BFS alphabets, complete input products, odd-values alphabet) executed under the C accelerator and PURE_PYTHON=1 in separate processes, per-step observations compared',
+        text='Lock-step BFS over the alphabets of C01/C02/C06/C07/C09/C16, exact-result enumeration of the C04/C08/C14/C19/C20 input spaces, and an odd-values alphabet through every public entry point.',
+        note='"Any program" = union of the bounded alphabets; exception messages are not compared, only types. Two recorded known findings (hostile __class__ on a name argument).', ref='3/C10'),
+    'C11': dict(technique='(a) exhaustive fault/re-entrancy injection: every call-out site of a lookup x every action; (b) stateless model checking of real threads under a cooperative scheduler (sys.settrace scheduling points), all schedules up to a preemption bound; oracles: atomicity vs twin worlds, no stale survivor, ownership audit of cache containers, leak check',
+        text='Every (flavour, entry point, site, action, warm/cold) injection scenario; every mutator || lookup harness over all schedules with <= 1 preemption (core harnesses 2; thorough 2/3), lookup-only and three-thread harnesses.',
+        note='Scheduling granularity = trace events in adapter.py/interface.py/declarations.py, C code atomic (GIL); memory safety through the ownership audit, not a memory checker; atomicity is only required with respect to registry mutations.', ref='3/C11'),
     'C12': dict(technique=E2 + ' in 8 processes (4 hash seeds x 2 implementations) whose complete result matrices must be identical',
         text='All ordered pairs under six comparison operators and hash, all triples, sorted() of 4-element mixed sub-collections in many permutations.',
         note='Four hash seeds stand for all hash seeds; names over a 6-element alphabet incl. empty, prefix-related and non-ASCII.', ref='3/C12'),
